@@ -10,6 +10,7 @@ From IT.gen Require Import GenInventory.
 Open Scope string_scope.
 
 Theorem SRC_inventory_siblings_range : inv_siblings_range = [
+  ("use crate :: { error :: ConsistencyError , relations :: connect_neighbors , Arena , NodeId }", []);
   ("struct SiblingsRange", ["Debug"; "Clone"; "Copy"]);
   ("impl SiblingsRange", ["new"; "detach_from_siblings"]);
   ("struct DetachedSiblingsRange", ["Debug"; "Clone"; "Copy"]);
